@@ -74,6 +74,8 @@ type Conn struct {
 
 	// NoYield disables the yield before each connection method.
 	NoYield bool
+	// YieldFn, when set, replaces Sim.Yield for the connection's yields.
+	YieldFn func(point, arg string)
 
 	Stats Stats
 }
@@ -95,6 +97,10 @@ func New(sim *sched.Sim) *Conn { return &Conn{Sim: sim} }
 
 func (c *Conn) yield(point, arg string) {
 	if c.NoYield || c.Sim == nil {
+		return
+	}
+	if c.YieldFn != nil {
+		c.YieldFn(point, arg)
 		return
 	}
 	c.Sim.Yield(point, arg)
